@@ -49,7 +49,11 @@ class CaseTimeout(BaseException):
     pass
 
 
+_fired = [False]
+
+
 def _alarm(signum, frame):
+    _fired[0] = True
     raise CaseTimeout()
 
 
@@ -144,6 +148,7 @@ def assemble(files, charset="bk", timeout=DEFAULT_TIMEOUT, want_symbols=False, r
         old = signal.signal(signal.SIGALRM, _alarm)
         signal.setitimer(signal.ITIMER_REAL, timeout)
     comp = None
+    _fired[0] = False
     try:
         try:
             with R.handle_reports(h):
@@ -172,6 +177,10 @@ def assemble(files, charset="bk", timeout=DEFAULT_TIMEOUT, want_symbols=False, r
         if timeout:
             signal.setitimer(signal.ITIMER_REAL, 0)
             signal.signal(signal.SIGALRM, old)
+    if _fired[0] and out.kind != "ok":
+        # the watchdog interrupted pdpy11 asynchronously; whatever exception surfaced is an artefact of that
+        out.kind = "timeout"
+        out.exc = ("CaseTimeout", "watchdog", "")
     if out.kind == "ok" and any(r[0] != "warning" for r in recs):
         out.kind = "ok-with-errors"  # success although an error was reported: never legitimate
     if comp is not None:
